@@ -448,3 +448,30 @@ theorem C09_specUtil_rows :
   refine ⟨?_, ?_, ?_, ?_, ?_, ?_, ?_, ?_, ?_, ?_⟩ <;> rfl
 
 end Primaite.Obs
+
+/-! ## threshold validation: translated `_validate_thresholds`, the setters, and what a BUILT tree therefore satisfies -/
+
+namespace Primaite.Obs
+open Primaite.Gen
+
+/-- the translated body of `AbstractObservation._validate_thresholds` accepts a triple exactly when the model's `Thr.valid` does
+(for EVERY triple of integers) -/
+theorem C09_gen_validate_thresholds (t : Thr) : ObsTables.validateThresholds [t.low, t.med, t.high] = t.valid := by
+  simp only [ObsTables.validateThresholds, ObsTables.pyGetI, Thr.valid, List.length_cons, List.length_nil, List.range', List.all_cons,
+    List.all_nil]
+  by_cases h1 : t.low < t.med <;> by_cases h2 : t.med < t.high <;> simp [h1, h2] <;> omega
+
+/-- `Thr.valid` is the decidable form of the construction invariant `Thr.Ok` that `C09_band_eq_code` needs -/
+theorem Thr.valid_iff (t : Thr) : t.valid = true ↔ t.Ok := by
+  simp [Thr.valid, Thr.Ok]
+
+/-- the constructors hand `[low, medium, high]` of their own key to their setter, the setter validates exactly these three positions
+and assigns low / med / high from positions 0 / 1 / 2 only under the validation; a missing key takes the class defaults -/
+theorem C09_gen_threshold_setters :
+    ObsTables.thresholdSetters = [
+      ("ApplicationObservation", "app_executions", "class-defaults", ["low", "medium", "high"], [0, 1, 2], [("low", 0), ("med", 1), ("high", 2)]),
+      ("FileObservation", "file_access", "class-defaults", ["low", "medium", "high"], [0, 1, 2], [("low", 0), ("med", 1), ("high", 2)]),
+      ("NICObservation", "nmne", "class-defaults", ["low", "medium", "high"], [0, 1, 2], [("low", 0), ("med", 1), ("high", 2)])] := by
+  rfl
+
+end Primaite.Obs
